@@ -110,6 +110,19 @@ theorem cacheGetPage_balanced (cfg : Cfg) (pol : Policy) (key pfn : Nat) (pg : P
   | err s => rw [hr] at h; simpa [gainPage] using h
   | stuck => rw [hr] at h; simpa [gainPage] using h
 
+/-- `diskdump_get_page` (early refusal of excluded frames, else `cache_get_page`):
+success holds the page-cache entry, failure nothing -/
+theorem diskdumpGetPage_balanced (cfg : Cfg) (pol : Policy) (key pfn : Nat) (pg : PageInfo) (orc : List Ext) (L : List Res) :
+    Runs (diskdumpGetPage cfg pol key pfn pg orc).evs L
+      ((match (diskdumpGetPage cfg pol key pfn pg orc).res with
+        | .ok _ => [Res.pin .pc key]
+        | _ => []) ++ L) := by
+  have h := diskdumpGetPage_runs cfg pol key pfn pg orc L
+  cases hr : (diskdumpGetPage cfg pol key pfn pg orc).res with
+  | ok p => rw [hr] at h; simpa [gainPage] using h
+  | err s => rw [hr] at h; simpa [gainPage] using h
+  | stuck => rw [hr] at h; simpa [gainPage] using h
+
 /-- `read_locked`: after the call, successful, partial or failed, no entry is
 referenced on its behalf -/
 theorem readLocked_balanced (cfg : Cfg) (pages : Nat → PageInfo) (as fuel : Nat) (pol : Policy) (addr remain : Nat)
